@@ -19,6 +19,8 @@ func checkC15(r *Run) {
 	r2 := r.Rule("R-C15-2", "zero is skipped: newID returns the draw only on the `id != 0` edge, otherwise a fresh draw")
 	r3 := r.Rule("R-C15-3", "one draw per subscribe/unsubscribe, before registration, used as key and packet id; publish draws only when ID == 0 and queued copies keep the caller's id")
 	r4 := r.Rule("R-C15-4", "seed interval [c2, c1+c2-1] is inside [1, 65535]")
+	r5 := r.Rule("R-C15-5", "an identifier the caller put on a message is used unchanged: Message.ID is written only in the publish implementation, only when it is 0, from newID()")
+	c.ruleMessageStores(r5, nil, nil)
 	r1.Floor(2)
 	idF := c.structField("BaseClient", "idLast")
 	newID := c.Method("BaseClient", "newID")
@@ -207,6 +209,8 @@ func checkC19(r *Run) {
 	r3 := r.Rule("R-C19-3", "error-construction discipline: returned errors are nil / passed through / sentinels / wrapError* results / library error structs")
 	r4 := r.Rule("R-C19-4", "an interrupted QoS>=1 publish, subscribe or unsubscribe returns an ErrorWithRetry whose handle re-issues that request on the client it is given")
 	r5 := r.Rule("R-C19-5", "a cancelled caller context is reported as that context's error (request waits; KeepAlive's prioritised classification)")
+	r6 := r.Rule("R-C19-6", "an expired ResponseTimeout is identifiable: every context bounded by ResponseTimeout is the requestContext wrapper, whose Err() yields RequestTimeoutError whenever the bound can have expired")
+	c.ruleTimeoutIdentity(r6)
 	r3.Floor(25)
 	r4.Floor(8)
 	// --- R-C19-1
@@ -608,4 +612,170 @@ func (c *Ctx) ruleNewIDNonZero(r2 *RuleRep) {
 			r2.Bad(key, ret.Pos(), "newID can return 0 (no dominating zero test on the returned value)")
 		}
 	}
+}
+
+// ruleTimeoutIdentity (R-C19-6).
+func (c *Ctx) ruleTimeoutIdentity(rr *RuleRep) {
+	a := c.retryAnchors()
+	if a.ReqCtx == nil {
+		rr.Lost("(*RetryClient).requestContext", "not found")
+		return
+	}
+	rcF := a.ReqCtx
+	isWrapperAlloc := func(v ssa.Value) (*ssa.Alloc, string) {
+		al, ok := c.Resolve(v).(*ssa.Alloc)
+		if !ok {
+			return nil, ""
+		}
+		tn := typeName(al.Type())
+		if tn == "" || c.Method(tn, "Err") == nil {
+			return nil, ""
+		}
+		return al, tn
+	}
+	// (a) what requestContext hands out when a timeout is configured
+	wrapT := ""
+	deadlineBased := false
+	for _, ret := range returnsOf(rcF) {
+		v := c.Resolve(c.RetVal(ret, 0))
+		if len(rcF.Params) > 1 && v == ssa.Value(rcF.Params[1]) {
+			continue // the unbounded pass-through (ResponseTimeout == 0), R-C18-2's concern
+		}
+		al, tn := isWrapperAlloc(v)
+		if al == nil {
+			rr.Bad("requestContext/wrap", ret.Pos(), "the context bounded by ResponseTimeout is handed out without the wrapper whose Err() reports RequestTimeoutError: an expired response timeout is indistinguishable from the caller's own deadline")
+			return
+		}
+		wrapT = tn
+		if ex, ok := c.Resolve(c.storedField(al, "Context")).(*ssa.Extract); ok && ex.Index == 0 {
+			if k, ok := ex.Tuple.(*ssa.Call); ok && (isStdCall(&k.Call, "context", "WithTimeout") || isStdCall(&k.Call, "context", "WithDeadline")) {
+				deadlineBased = true
+			}
+		}
+	}
+	if wrapT == "" {
+		rr.Lost("requestContext/wrap", "requestContext never returns a bounded context")
+		return
+	}
+	// (b) the wrapper's Err()
+	errM := c.Method(wrapT, "Err")
+	okErr := true
+	for _, ret := range returnsOf(errM) {
+		v := c.Resolve(ret.Results[0])
+		if al, ok := v.(*ssa.Alloc); ok && typeName(al.Type()) == "RequestTimeoutError" {
+			continue
+		}
+		// an unwrapped return: only where the inner error is known not to be the expiry of a deadline-based bound
+		safe := false
+		if deadlineBased {
+			for _, b := range errM.Blocks {
+				iff := blockIf(b)
+				if iff == nil {
+					continue
+				}
+				bin, ok := iff.Cond.(*ssa.BinOp)
+				if !ok || (bin.Op != token.NEQ && bin.Op != token.EQL) {
+					continue
+				}
+				isDE := func(x ssa.Value) bool { return c.globalLoadName(x) == "context.DeadlineExceeded" }
+				if !isDE(bin.X) && !isDE(bin.Y) {
+					continue
+				}
+				edge := 0
+				if bin.Op == token.EQL {
+					edge = 1
+				}
+				if DominatedByEdge(errM, ret, b, edge, PathQ{}) {
+					safe = true
+				}
+			}
+			// `return nil`-like pass-through of a nil inner error is fine too
+			for _, e := range nilEdgesOfAnyErrCall(c, errM) {
+				if DominatedByEdge(errM, ret, e.B, e.K, PathQ{}) {
+					safe = true
+				}
+			}
+		}
+		if !safe {
+			okErr = false
+			why := "although the bound is not a deadline (its expiry surfaces as context.Canceled)"
+			if deadlineBased {
+				why = "on a path that is not limited to errors other than context.DeadlineExceeded"
+			}
+			rr.Bad("("+wrapT+").Err", ret.Pos(), "%s.Err() can return the inner error unwrapped %s: an expired ResponseTimeout is then not identifiable as RequestTimeoutError", wrapT, why)
+		}
+	}
+	if okErr {
+		rr.OK("("+wrapT+").Err", errM.Pos(), "Err() yields RequestTimeoutError whenever the response timeout can have expired")
+	}
+	// (c) ResponseTimeout is turned into a bound only inside the wrapper
+	n := 0
+	for _, f := range c.Funcs {
+		eachInstr(f, func(in ssa.Instruction) {
+			k, ok := in.(*ssa.Call)
+			if !ok || len(k.Call.Args) < 2 {
+				return
+			}
+			if !isStdCall(&k.Call, "context", "WithTimeout") && !isStdCall(&k.Call, "context", "WithDeadline") && !isStdCall(&k.Call, "time", "AfterFunc") {
+				return
+			}
+			arg := k.Call.Args[1]
+			if isStdCall(&k.Call, "time", "AfterFunc") {
+				arg = k.Call.Args[0]
+			}
+			if _, isRT := isFieldLoad(c.Resolve(arg), "RetryClient", "ResponseTimeout"); !isRT {
+				return
+			}
+			n++
+			key := FuncName(f) + "/bound"
+			if isStdCall(&k.Call, "time", "AfterFunc") {
+				if f != rcF {
+					rr.Bad(key, in.Pos(), "ResponseTimeout arms a timer outside requestContext()")
+				}
+				return
+			}
+			okUse := true
+			for _, u := range *k.Referrers() {
+				ex, ok := u.(*ssa.Extract)
+				if !ok || ex.Index != 0 {
+					continue
+				}
+				for _, uu := range *ex.Referrers() {
+					switch y := uu.(type) {
+					case *ssa.Store:
+						fa, isFA := y.Addr.(*ssa.FieldAddr)
+						if !isFA {
+							okUse = false
+							continue
+						}
+						if al, _ := isWrapperAlloc(fa.X); al == nil {
+							okUse = false
+						}
+					case *ssa.DebugRef:
+					default:
+						okUse = false
+					}
+				}
+			}
+			if okUse {
+				rr.OK(key, in.Pos(), "the bounded context goes straight into the %s wrapper", wrapT)
+			} else {
+				rr.Bad(key, in.Pos(), "a context bounded by ResponseTimeout is used in %s without the %s wrapper: when this bound expires the error is a bare context error, not identifiable as RequestTimeoutError", FuncName(f), wrapT)
+			}
+		})
+	}
+	if n == 0 {
+		rr.Lost("ResponseTimeout/bound", "ResponseTimeout is never turned into a context bound")
+	}
+}
+
+// nilEdgesOfAnyErrCall: edges on which the result of an Err() call made in f is nil.
+func nilEdgesOfAnyErrCall(c *Ctx, f *ssa.Function) []ifEdge {
+	var out []ifEdge
+	eachInstr(f, func(in ssa.Instruction) {
+		if k, ok := in.(*ssa.Call); ok && k.Call.IsInvoke() && k.Call.Method.Name() == "Err" {
+			out = append(out, nilEdges(f, k)...)
+		}
+	})
+	return out
 }
